@@ -299,7 +299,15 @@ def run(repo, rep):
     thread_rules(repo, rep)
     inverse_rules(repo, rep)
     direct_rules(repo, rep)
+    from ..symval import DIV_EVENTS
+    del DIV_EVENTS[:]
     lsf_rules(repo, rep)
+    # no denominator of line_sf vanishes inside the domain: two points of equal easting (a grid-north line), an end on the central meridian
+    common.division_rule(repo, rep, [('geodepy.geodesy', 'line_sf')],
+                         {'east1': (100000.0, 900000.0), 'east2': (100000.0, 900000.0), 'north1': (1000000.0, 9000000.0), 'north2': (1000000.0, 9000000.0),
+                          'zone1': (1.0, 60.0), 'zone2': (1.0, 60.0), 'projection.falseeast': (500000.0, 500000.0), 'projection.cmscale': (0.9996, 0.9996),
+                          'ellipsoid.semimaj': (6378137.0, 6378137.0), 'ellipsoid.inversef': (298.257, 298.257)},
+                         families=(('east1', 'east2'), ('north1', 'north2'), ('zone1', 'zone2')))
     rep.floor('R-WIRE', 9, 'four inverse results, loop body and five direct results')
 
 
